@@ -12,6 +12,7 @@ import (
 	"path/filepath"
 	"strconv"
 	"strings"
+	"syscall"
 	"time"
 
 	"github.com/evanw/esbuild/pkg/api"
@@ -107,13 +108,39 @@ func runFuzzCase(c fuzzCase, dir string) fuzzResult {
 			}
 		}
 	}()
-	select {
-	case <-done:
-	case <-time.After(12 * time.Second):
-		res.Status, res.Detail = "hang", "no result within 12 s"
+	// The limits are in CPU time of this worker process (one case at a time), so that a loaded machine does not
+	// turn an ordinary case into a "hang": 12 s without a result is a hang once 12 s of CPU were spent on it, or
+	// after 60 s of wall clock whatever the CPU time (a deadlock burns none).
+	cpu0 := processCPUMillis()
+	deadline := time.After(60 * time.Second)
+wait:
+	for {
+		select {
+		case <-done:
+			break wait
+		case <-deadline:
+			res.Status, res.Detail = "hang", "no result within 60 s"
+			break wait
+		case <-time.After(500 * time.Millisecond):
+			if time.Since(start) > 12*time.Second && processCPUMillis()-cpu0 > 12000 {
+				res.Status, res.Detail = "hang", "no result after 12 s of CPU time"
+				break wait
+			}
+		}
 	}
 	res.Millis = time.Since(start).Milliseconds()
+	if cpu := processCPUMillis() - cpu0; cpu < res.Millis {
+		res.Millis = cpu
+	}
 	return res
+}
+
+func processCPUMillis() int64 {
+	var ru syscall.Rusage
+	if syscall.Getrusage(syscall.RUSAGE_SELF, &ru) != nil {
+		return 1 << 40
+	}
+	return (ru.Utime.Sec+ru.Stime.Sec)*1000 + int64(ru.Utime.Usec+ru.Stime.Usec)/1000
 }
 
 // worker: hapi c16-worker <cases.json> <results.jsonl>
@@ -332,7 +359,7 @@ func runFuzzBatch(cases []fuzzCase, workdir string, rep *Report) {
 		os.WriteFile(in, js, 0644)
 		self, _ := os.Executable()
 		// address space limit 6 GB (the Go runtime reserves a lot of virtual memory), wall clock via timeout
-		cmd := exec.Command("bash", "-c", fmt.Sprintf("ulimit -v 6000000; exec timeout -k 5 %d %q c16-worker %q %q", 30+len(remaining)/2, self, in, out))
+		cmd := exec.Command("bash", "-c", fmt.Sprintf("ulimit -v 6000000; exec timeout -k 5 %d %q c16-worker %q %q", 90+len(remaining)/2, self, in, out))
 		cmd.Env = append(os.Environ(), "GOMEMLIMIT=2500MiB", "GOMAXPROCS=4")
 		stderr, _ := cmd.CombinedOutput()
 		results := map[int]fuzzResult{}
@@ -408,10 +435,10 @@ func runFuzzBatch(cases []fuzzCase, workdir string, rep *Report) {
 			case "panic-message":
 				rep.violate("c16/recovered-panic-reported", "esbuild reported an internal error: "+r.Detail, c)
 			case "hang":
-				rep.violate("c16/hang"+sig, fmt.Sprintf("no result within 12 s for an input of %d bytes (%s loader, %s)", len(c.Input)*3/4, c.Loader, c.Opt), c)
+				rep.violate("c16/hang"+sig, fmt.Sprintf("no result (12 s of CPU time, or 60 s of wall clock) for an input of %d bytes (%s loader, %s)", len(c.Input)*3/4, c.Loader, c.Opt), c)
 			default:
 				if r.Millis > 5000 {
-					rep.violate("c16/slow"+sig, fmt.Sprintf("%d ms for an input of %d bytes (%s loader, %s)", r.Millis, len(c.Input)*3/4, c.Loader, c.Opt), c)
+					rep.violate("c16/slow"+sig, fmt.Sprintf("%d ms (the smaller of wall clock and CPU time) for an input of %d bytes (%s loader, %s)", r.Millis, len(c.Input)*3/4, c.Loader, c.Opt), c)
 				}
 			}
 		}
@@ -427,7 +454,7 @@ func runFuzzBatch(cases []fuzzCase, workdir string, rep *Report) {
 
 func init() {
 	searches["c16-fuzz"] = func(r *gen.Rand, count int, workdir string, rep *Report) {
-		rep.Rule = "byte strings made by 1-4 structure-aware mutations (bit flips, slice deletion/duplication, token insertion from a 170-token dictionary incl. NUL, invalid UTF-8, line separators, unterminated comments/templates, huge numbers and escapes; truncation; splicing of two seeds; nesting 50-12000 deep of 23 bracket kinds incl. CSS nesting and :is(); runs of one byte up to 30000; source-map comments with malformed and sectioned payloads) of every Go string literal in the repository's js/ts/css/json parser, lexer and printer tests; x loaders {js,jsx,ts,tsx,css,local-css,json} x 18 JS / 8 CSS option sets as transforms, and as bundles next to mutated package.json/tsconfig.json/dependencies. Each case runs in a worker process (6 GB address space, 12 s per case); violations: escaped panic, reported internal error/recovered panic, hang, dead worker, > 5 s. non-trivial = the case completed with ordinary output or diagnostics"
+		rep.Rule = "byte strings made by 1-4 structure-aware mutations (bit flips, slice deletion/duplication, token insertion from a 170-token dictionary incl. NUL, invalid UTF-8, line separators, unterminated comments/templates, huge numbers and escapes; truncation; splicing of two seeds; nesting 50-12000 deep of 23 bracket kinds incl. CSS nesting and :is(); runs of one byte up to 30000; source-map comments with malformed and sectioned payloads) of every Go string literal in the repository's js/ts/css/json parser, lexer and printer tests; x loaders {js,jsx,ts,tsx,css,local-css,json} x 18 JS / 8 CSS option sets as transforms, and as bundles next to mutated package.json/tsconfig.json/dependencies. Each case runs in a worker process (6 GB address space; 12 s of CPU time or 60 s of wall clock per case); violations: escaped panic, reported internal error/recovered panic, hang, dead worker, > 5 s (the smaller of wall clock and CPU time, so that machine load does not count). non-trivial = the case completed with ordinary output or diagnostics"
 		os.MkdirAll(workdir, 0755)
 		corpus := loadCorpus()
 		rep.Distribution["corpus:js"] = len(corpus.js)
